@@ -190,3 +190,37 @@ class LocalDateTimeG(Gen):
 def PeriodG(lo: int = -(10**18), hi: int = 10**18) -> Obj:
     names = ["years", "months", "weeks", "days", "hours", "minutes", "seconds", "milliseconds", "ticks", "nanoseconds"]
     return Obj("pyoda_time._period:Period", {f"_Period__{n}": Int(lo, hi) for n in names})
+
+
+class DateIntervalG(Gen):
+    def __init__(self, cal: str = "cal") -> None:
+        self.cal = cal
+
+    def make(self, name, b):
+        from pyvc.values import SObj
+        from pyoda_time._date_interval import DateInterval
+        from specs import cal_abs as CA
+        from specs import views as V
+
+        ac = b.named[self.cal]
+        s = LocalDateG(self.cal).make(name + ".start", b)
+        e = LocalDateG(self.cal).make(name + ".end", b)
+        ds = CA.dse(ac.cid, V.ld_y(s), V.ld_m(s), V.ld_d(s))
+        de = CA.dse(ac.cid, V.ld_y(e), V.ld_m(e), V.ld_d(e))
+        b.assume(ds <= de)
+        return SObj(DateInterval, {"_DateInterval__start": s, "_DateInterval__end": e}, owner=-1, tag=name)
+
+    def realize(self, v, ev, ctx):
+        from pyoda_time import DateInterval
+
+        s = LocalDateG(self.cal).realize(v.fields["_DateInterval__start"], ev, ctx)
+        e = LocalDateG(self.cal).realize(v.fields["_DateInterval__end"], ev, ctx)
+        if e < s:
+            s, e = e, s
+        return DateInterval(ghosted_date(s), ghosted_date(e))
+
+
+def IntervalG() -> Obj:
+    from specs import views as V
+
+    return Obj("pyoda_time._interval:Interval", {"_Interval__start": InstantAnyG(), "_Interval__end": InstantAnyG()}, inv=lambda o: V.inst_ns(V.fld(o, "_Interval__start")) <= V.inst_ns(V.fld(o, "_Interval__end")))
